@@ -296,7 +296,7 @@ func writesFreshDurable(f *ssa.Function) bool {
 
 func c14R3(c *core.Ctx) {
 	rule := "C14.R3"
-	c.Rule(rule, "keyban.OnRequest: Notify(ban,true) iff Banned ∧ ¬Contains(ban); Notify(ban,false) iff ¬Banned ∧ Contains(ban); every Notify is cut off by secret key decrypts ∧ ¬IsExpired ∧ IsMaster ∧ target key decrypts ∧ same contract; the ban is the request's Target", 10)
+	c.Rule(rule, "keyban.OnRequest: Notify(ban,true) iff Banned ∧ ¬Contains(ban); Notify(ban,false) iff ¬Banned ∧ Contains(ban); every Notify is cut off by secret key decrypts ∧ ¬IsExpired ∧ IsMaster ∧ target key decrypts ∧ same contract; the ban is the request's Target", 8)
 	f := fn(c, rule, "internal/service/keyban", "Service", "OnRequest")
 	if f == nil {
 		return
@@ -358,15 +358,18 @@ func c14R3(c *core.Ctx) {
 		return eng.CallPred(fmt.Sprintf("cluster.Contains(ban)=%v", want), idReplContains, -1, want, nil)
 	}
 	notifies := eng.Calls(f, false, idReplNotify)
-	var nTrue, nFalse []ssa.CallInstruction
+	var nTrue, nFalse, nVar []ssa.CallInstruction
 	for _, n := range notifies {
 		a := eng.CallArgs(n.Common())
 		b, isC := constBoolOf(a[2])
 		if !isC {
-			c.Fail(rule, name+":Notify polarity", n.Pos(), "Notify is called with a non-constant enabled flag")
-			continue
-		}
-		if b {
+			// the other spelling: Notify(ban, message.Banned) under Contains(ban) != message.Banned
+			if _, isReq := eng.LoadOfField(a[2], "Banned"); !isReq {
+				c.Fail(rule, name+":Notify polarity", n.Pos(), "Notify is called with a flag that is neither a constant nor the request's Banned field")
+				continue
+			}
+			nVar = append(nVar, n)
+		} else if b {
 			nTrue = append(nTrue, n)
 		} else {
 			nFalse = append(nFalse, n)
@@ -391,6 +394,25 @@ func c14R3(c *core.Ctx) {
 		c.Check(g1.Guarded && g1.Edges > 0 && g2.Guarded && g2.Edges > 0, rule, fmt.Sprintf("%s:Notify(%v) only if requested and needed", name, pol), n.Pos(), "issued only for the requested polarity when the state differs", fmt.Sprintf("Notify is issued for the wrong polarity or although the state already matches (banned-guard=%v/%d contains-guard=%v/%d)", g1.Guarded, g1.Edges, g2.Guarded, g2.Edges))
 		ok, w := eng.MustFollow(f, append(append([]eng.Pred{}, auth...), banned(pol), contains(!pol)), func(i ssa.Instruction) bool { return i == n.(ssa.Instruction) })
 		c.Check(ok, rule, fmt.Sprintf("%s:Notify(%v) whenever requested and needed", name, pol), n.Pos(), "an authorised request that changes the state always notifies before replying", fmt.Sprintf("an authorised ban request returns without Notify: %v", w))
+	}
+	if len(nVar) == 1 && len(nTrue) == 0 && len(nFalse) == 0 {
+		n := nVar[0]
+		differs := eng.EqPred("cluster.Contains(ban) != message.Banned", false, func(x, y ssa.Value) bool {
+			call, ok := eng.StripConv(x).(*ssa.Call)
+			if !ok || eng.FuncID(eng.CalleeObj(&call.Call)) != idReplContains {
+				return false
+			}
+			_, isReq := eng.LoadOfField(y, "Banned")
+			return isReq
+		})
+		g := eng.Guarded(n, differs)
+		c.Check(g.Guarded && g.Edges > 0, rule, name+":Notify(Banned) only if the state differs", n.Pos(), "issued with the requested polarity only when the state differs", "Notify(ban, message.Banned) is issued although the state already matches the request")
+		ok, w := eng.MustFollow(f, append(append([]eng.Pred{}, auth...), differs), func(i ssa.Instruction) bool { return i == n.(ssa.Instruction) })
+		c.Check(ok, rule, name+":Notify(Banned) whenever requested and needed", n.Pos(), "an authorised request that changes the state always notifies before replying", fmt.Sprintf("an authorised ban request returns without Notify: %v", w))
+		return
+	}
+	if len(nVar) > 0 {
+		c.Fail(rule, name+":Notify polarity", f.Pos(), "Notify is called both with constant flags and with the request's flag")
 	}
 	check(nTrue, true)
 	check(nFalse, false)
